@@ -32,8 +32,10 @@ func VerifCache() {
 	nkeys := verifrt.Param("keys")
 	keys := []string{"k0", "k1"}[:nkeys]
 	rc := datasource.NewRequestCache[string, int]()
+	// the harness's own bookkeeping is synchronised (natively the goroutines run in parallel)
+	var bk sync.Mutex
 	clock := 0
-	tick := func() int { clock++; return clock }
+	tick := func() int { bk.Lock(); defer bk.Unlock(); clock++; return clock }
 	var fetches []*fetchRec
 	calls := make([]*callRec, n)
 	var wg sync.WaitGroup
@@ -48,7 +50,10 @@ func VerifCache() {
 			calls[g] = c
 			c.val, c.err = rc.Get(key, func() (int, error) {
 				f := &fetchRec{key: key, start: tick()}
+				bk.Lock()
 				fetches = append(fetches, f)
+				nth := len(fetches)
+				bk.Unlock()
 				verifrt.Yield()
 				fails := verifrt.Bool("fetch-fails")
 				verifrt.Yield()
@@ -57,7 +62,7 @@ func VerifCache() {
 					return 0, errFetch
 				}
 				f.ok = true
-				f.val = 100 + len(fetches)
+				f.val = 100 + nth
 				return f.val, nil
 			})
 			c.end = tick()
